@@ -20,7 +20,8 @@ TECHNIQUE = "runtime reference-model monitor: grammar-derived Earley recogniser 
 RULE = ("grammatical base scripts covering every rule context; single-token deletions, substitutions (by a token of every type), insertions, adjacent "
         "swaps and truncations (random sample in quick; exhaustive for small bases in thorough), token soups and character soups incl. "
         "characters only ANY matches; a tenth of the texts also through load() from an ASCII file; non-trivial = ungrammatical text, or a "
-        "grammatical mutant that differs from its base; distinct by SHA-1 of the text")
+        "grammatical mutant that differs from its base; distinct by SHA-1 of the text"
+        '; files are written to three fixed paths per worker (a grammatical text first, the tested text over it); unusual first characters (BOM, NUL, zero-width space, ...)')
 BUDGET = {"quick": 24000, "thorough": 400000}
 MIN_NONTRIVIAL = {"quick": 3000, "thorough": 30000}
 REQUIRED_FUNCTIONS = ["error.py:BlackbirdErrorListener.syntaxError", "listener.py:parse"]
